@@ -661,7 +661,7 @@ theorem default_meaning (name : List Char) :
     · have := (startsWith_iff _ _).mpr h1; simp [this] at h3
     · have := (endsWith_iff _ _).mpr h2; simp [this] at h3
   · rename_i h
-    refine ⟨fun e => by cases e, fun ⟨h1, h2⟩ => ?_⟩
+    refine ⟨fun e => (by cases e), fun ⟨h1, h2⟩ => ?_⟩
     exfalso; apply h
     simp only [Bool.and_eq_true, Bool.not_eq_true', Bool.and_eq_false_iff]
     refine ⟨(startsWith_iff _ _).mpr h1, ?_⟩
@@ -820,5 +820,127 @@ theorem main_module_counterexample :
         = .ok .priv ∧
       specLevel [⟨.hidden, ['p', '.'] ++ mainName⟩] ⟨['p', '.'] ++ mainName, mainName, true, false⟩
         = .hidden := by decide
+
+
+/-! ### the cache -/
+
+theorem lookup_append (c : Cache) (k fn : List Char) (l : Level) :
+    lookup (c ++ [(fn, l)]) k =
+      match lookup c k with
+      | some v => some v
+      | none => if fn = k then some l else none := by
+  induction c with
+  | nil => simp [lookup]
+  | cons kv c ih =>
+    obtain ⟨k', v⟩ := kv
+    by_cases h : k' = k
+    · simp [lookup, h]
+    · simp [lookup, h, ih]
+
+/-- every cache entry is the answer the rules give, for every object of `U` with that name -/
+def CacheOk (rules : List Rule) (U : List Obj) (c : Cache) : Prop :=
+  ∀ fn l, lookup c fn = some l → ∀ ob ∈ U, ob.fullName = fn → (privacyClass rules [] ob).1 = .ok l
+
+theorem privacyClass_cached (rules : List Rule) (U : List Obj)
+    (hU : ∀ a ∈ U, ∀ b ∈ U, a.fullName = b.fullName → a = b)
+    (c : Cache) (hc : CacheOk rules U c) (ob : Obj) (hob : ob ∈ U) :
+    (privacyClass rules c ob).1 = (privacyClass rules [] ob).1 ∧
+      CacheOk rules U (privacyClass rules c ob).2 := by
+  by_cases hm : (ob.isModule && ob.name = mainName) = true
+  · simp [privacyClass, hm, hc]
+  · simp only [privacyClass, hm, if_false, Bool.false_eq_true]
+    cases hl : lookup c ob.fullName with
+    | some l =>
+      have := hc _ l hl ob hob rfl
+      simp only [privacyClass, hm, if_false, Bool.false_eq_true] at this
+      simp only [systemPrivacyClass, hl]
+      exact ⟨this.symm, hc⟩
+    | none =>
+      by_cases hk : ob.kindNone = true
+      · simp [systemPrivacyClass, hl, lookup, hk, hc]
+      · cases hd : decide rules ob with
+        | err e => simp [systemPrivacyClass, hl, lookup, hk, hd, hc]
+        | ok l =>
+          refine ⟨by simp [systemPrivacyClass, hl, lookup, hk, hd], ?_⟩
+          simp only [systemPrivacyClass, hl, hk, if_false, Bool.false_eq_true, hd]
+          intro fn l' hlk ob' hob' hfn
+          rw [lookup_append] at hlk
+          cases hl' : lookup c fn with
+          | some v =>
+            simp only [hl'] at hlk
+            exact hc fn l' (by rw [hl', hlk]) ob' hob' hfn
+          | none =>
+            simp only [hl'] at hlk
+            by_cases he : ob.fullName = fn
+            · simp only [he, if_true, Option.some.injEq] at hlk
+              have : ob' = ob := hU ob' hob' ob hob (by rw [hfn, he])
+              subst this hlk
+              simp [privacyClass, hm, systemPrivacyClass, lookup, hk, hd]
+            · simp [he] at hlk
+
+theorem run_cached (rules : List Rule) (U : List Obj)
+    (hU : ∀ a ∈ U, ∀ b ∈ U, a.fullName = b.fullName → a = b) :
+    ∀ (qs : List Obj) (c : Cache), (∀ q ∈ qs, q ∈ U) → CacheOk rules U c →
+      (run rules c qs).1 = qs.map (fun ob => (privacyClass rules [] ob).1)
+  | [], _, _, _ => rfl
+  | q :: qs, c, hq, hc => by
+    obtain ⟨h1, h2⟩ := privacyClass_cached rules U hU c hc q (hq q (by simp))
+    have ih := run_cached rules U hU qs (privacyClass rules c q).2
+      (fun x hx => hq x (List.mem_cons_of_mem _ hx)) h2
+    simp only [run, List.map_cons]
+    rw [← h1, ← ih]
+
+/-
+Full statement, false of the model (and of the code, for objects built by hand):
+    ∀ rules qs, (run rules [] qs).1 = qs.map (fun ob => (privacyClass rules [] ob).1)
+The cache is keyed by qualified name alone, the answer also reads `ob.name` and `ob.kind`.
+-/
+/-- **The cache is transparent.**  For any rule list and any query history — any objects, any
+order, any repetitions — in which one qualified name always denotes the same object (same `name`,
+same kind), every answer is the one a cache-less computation gives. -/
+theorem cache_transparent (rules : List Rule) (qs : List Obj)
+    (hU : ∀ a ∈ qs, ∀ b ∈ qs, a.fullName = b.fullName → a = b) :
+    (run rules [] qs).1 = qs.map (fun ob => (privacyClass rules [] ob).1) :=
+  run_cached rules qs hU qs [] (fun _ h => h) (fun _ _ h => by simp [lookup] at h)
+
+/-- two objects with one qualified name (a child `_x.s` of `m`, a child `s` of `m._x`): the second
+query is answered from the cache with the first one's class -/
+theorem cache_counterexample :
+    (run [] [] [⟨['m', '.', '_', 'x', '.', 's'], ['s'], false, false⟩,
+               ⟨['m', '.', '_', 'x', '.', 's'], ['_', 'x', '.', 's'], false, false⟩]).1
+      = [.ok .pub, .ok .pub] ∧
+    (privacyClass [] [] ⟨['m', '.', '_', 'x', '.', 's'], ['_', 'x', '.', 's'], false, false⟩).1
+      = .ok .priv := by decide
+
+example : (run [⟨.hidden, ['m', '.', '*']⟩] []
+    [⟨['m', '.', 'a'], ['a'], false, false⟩, ⟨['m'], ['m'], true, false⟩,
+     ⟨['m', '.', 'a'], ['a'], false, false⟩]).1 = [.ok .hidden, .ok .pub, .ok .hidden] := by decide
+
+/-- **Visibility.**  `ob.isVisible` is true exactly when every object on the chain
+`ob, ob.parent, …` has a privacy class and none is HIDDEN ("if a module/package/class is hidden,
+all its members are hidden as well"). -/
+theorem isVisible_meaning (rules : List Rule) : ∀ (chain : List Obj) (c : Cache),
+    (isVisible rules c chain).1 = .ok true ↔
+      ∀ r ∈ (run rules c chain).1, ∃ l, r = .ok l ∧ l ≠ .hidden
+  | [], c => by simp [isVisible, run]
+  | ob :: parents, c => by
+    have ih := isVisible_meaning rules parents (privacyClass rules c ob).2
+    simp only [isVisible, run]
+    cases hp : privacyClass rules c ob with
+    | mk r c' =>
+      rw [hp] at ih
+      cases r with
+      | err e => simp
+      | ok l =>
+        by_cases hl : l = .hidden
+        · subst hl; simp
+        · simp only [ne_eq, hl, not_false_eq_true, if_true, List.mem_cons, forall_eq_or_imp]
+          rw [ih]
+          constructor
+          · intro h; exact ⟨⟨l, rfl, hl⟩, h⟩
+          · intro h; exact h.2
+
+example : (isVisible [⟨.hidden, ['m']⟩] [] [⟨['m', '.', 'a'], ['a'], false, false⟩, ⟨['m'], ['m'], true, false⟩]).1
+    = .ok false := by decide
 
 end Privacy
